@@ -99,6 +99,13 @@ def _cases(tier):
         yield {"h": [["J", {"a": ch}]], "cfg": "full"}
         yield {"h": [["J", {"a": ch + "x"}], ["J", {"a": "y"}]], "cfg": "ir+pydantic+dc"}
         yield {"h": [["J", {"a": {"b": ch}}]], "cfg": "full"}
+    # the root merges with its own list items (a recursive model keeps the explicit name and is registered again, last) while another
+    # nested model generates the same name from its key
+    for key in ("root", "roots"):
+        for extra in ({}, {"tag": "t"}):
+            rec = dict({"uid": 1, "name": "n", "children": [{"uid": 2, "name": "m", "children": []}], key: {"other": 1, "thing": "x"}}, **extra)
+            yield {"h": [["J", rec]], "cfg": "full"}
+            yield {"h": [["J", rec], ["J", {"uid": 3, "name": "k", "children": [], key: {"other": 2, "thing": "y"}}]], "cfg": "full"}
     # literal-limit axis
     for ml in (0, 1, 2, 3):
         for h in A.histories(["lit_a", "lit_b", "long", "null", "s_int", A.ABSENT], 3):
